@@ -292,18 +292,18 @@ class Natives(object):
         def arc_data(m, arc, g):
             if not isinstance(arc, St) or 'p' not in arc.f: return Ref([])
             return arc.f['p'].proj(('f', 'data'))
-        T('Deref', 'deref', 'Arc', lambda m, th, a, g: arc_data(m, m.load(a[0], g), g))
+        T('Deref', 'deref', 'Arc', lambda m, th, a, g: arc_data(m, m.load_typed(a[0], g, ('Arc',)), g))
         def counted(m, p):
             return [(x, c, q) for x, c, q in p.tg if c.id not in s.pinned]
         def arc_clone(m, th, a, g):
-            arc = m.load(a[0], g)
+            arc = m.load_typed(a[0], g, ('Arc',))
             if not isinstance(arc, St): return POISON
             for x, c, q in counted(m, arc.f['p']):
                 r = Ref([(TRUE, c, q + (('f', 'strong'),))]); m.store(r, Add(m.load(r, g), ONE), And(g, x))
             return arc
         T('Clone', 'clone', 'Arc', arc_clone)
         def arc_drop(m, th, a, g):
-            arc = m.load(a[0], g)
+            arc = m.load_typed(a[0], g, ('Arc',))
             if not isinstance(arc, St): return UNIT
             alts = []
             for x, c, q in counted(m, arc.f['p']):
@@ -318,14 +318,14 @@ class Natives(object):
             return Dispatch(alts + [(Not(Or(*[x for x, _, _, _ in alts])), s.nop, [], None)])
         R('__arc_drop', arc_drop)
         def arc_downgrade(m, th, a, g):
-            arc = m.load(a[0], g)
+            arc = m.load_typed(a[0], g, ('Arc',))
             if not isinstance(arc, St): return POISON
             return St('Weak', {'p': arc.f['p']})
         R('Arc::downgrade', arc_downgrade)
         R('__weak_drop', lambda m, th, a, g: UNIT)
         T('Clone', 'clone', 'Weak', lambda m, th, a, g: m.load(a[0], g))
         def weak_upgrade(m, th, a, g):
-            w = m.load(a[0], g)
+            w = m.load_typed(a[0], g, ('Weak',))
             if not isinstance(w, St):
                 if m.debug: print('   upgrade of non-weak', w, a[0])
                 return POISON
@@ -342,7 +342,7 @@ class Natives(object):
             return En(OPT, Ite(alive, ONE, ZERO), {1: St(None, {0: St('Arc', {'p': w.f['p']})})})
         R('Weak::upgrade', weak_upgrade)
         def weak_strong(m, th, a, g):
-            w = m.load(a[0], g)
+            w = m.load_typed(a[0], g, ('Weak',))
             if not isinstance(w, St): return POISON
             out = ZERO
             for x, c, q in w.f['p'].tg:
@@ -358,10 +358,10 @@ class Natives(object):
         # ---- Mutex / Condvar
         R('Mutex::new', lambda m, th, a, g: St('Mutex', {'locked': FALSE, 'poison': FALSE, 'data': a[0]}))
         def lock_en(m, th, a, ph, g):
-            l = m.load(a[0].proj(('f', 'locked')), g)
+            l = m.load(m.typed_ref(a[0], g, ('Mutex',)).proj(('f', 'locked')), g)
             return Not(l) if isinstance(l, E) else FALSE
         def lock(m, th, a, g):
-            mu = a[0]
+            mu = m.typed_ref(a[0], g, ('Mutex',))
             if m.debug: m.stats.setdefault('lockers', {})[repr(mu)] = (th.name, m.cur_site_name, show(g, 1)[:40])
             m.store(mu.proj(('f', 'locked')), TRUE, g)
             guard = St('MutexGuard', {'m': mu})
@@ -370,13 +370,13 @@ class Natives(object):
             return En(RES, Ite(po, ONE, ZERO), {0: St(None, {0: guard}), 1: St(None, {0: St('PoisonError', {0: guard})})})
         R('Mutex::lock', lock, visible=True, enabled=lock_en)
         def try_lock(m, th, a, g):
-            mu = a[0]; l = m.load(mu.proj(('f', 'locked')), g)
+            mu = m.typed_ref(a[0], g, ('Mutex',)); l = m.load(mu.proj(('f', 'locked')), g)
             if not isinstance(l, E): return POISON
             m.store(mu.proj(('f', 'locked')), TRUE, And(g, Not(l)))
             return En(RES, Ite(l, ONE, ZERO), {0: St(None, {0: St('MutexGuard', {'m': mu})}), 1: St(None, {0: En(TLE, ONE, {})})})
         R('Mutex::try_lock', try_lock, visible=True)
         def guard_deref(m, th, a, g):
-            gd = m.load(a[0], g)
+            gd = m.load_typed(a[0], g, ('MutexGuard',))
             if not isinstance(gd, St) or 'm' not in gd.f: return Ref([])
             return gd.f['m'].proj(('f', 'data'))
         T('Deref', 'deref', 'MutexGuard', guard_deref); T('DerefMut', 'deref_mut', 'MutexGuard', guard_deref)
@@ -719,19 +719,19 @@ def install_futures(s):
     R('Context::from_waker', lambda m, th, a, g: St('Context', {'w': a[0]}))
     R('FutureObj::new', lambda m, th, a, g: St('FutureObj', {'p': a[0]}))
     def cx_waker(m, th, a, g):
-        cx = m.load(a[0], g)
+        cx = m.load_typed(a[0], g, ('Context',))
         return cx.f['w'] if isinstance(cx, St) else Ref([])
     R('Context::waker', cx_waker)
     def counted(p): return [(x, c, q) for x, c, q in p.tg if c.id not in s.pinned]
     def waker_clone(m, th, a, g):
-        w = m.load(a[0], g)
+        w = m.load_typed(a[0], g, ('Waker',))
         if not isinstance(w, St): return POISON
         for x, c, q in counted(w.f['data']):
             r = Ref([(TRUE, c, q + (('f', 'strong'),))]); m.store(r, Add(m.load(r, g), ONE), And(g, x))
         return w
     T('Clone', 'clone', 'Waker', waker_clone)
     def wake_by_ref(m, th, a, g):
-        w = m.load(a[0], g)
+        w = m.load_typed(a[0], g, ('Waker',))
         if not isinstance(w, St) or 'vt' not in w.f: return Dispatch([(TRUE, None, a, None)])
         cs = cases(w.f['vt'])
         if cs is None: raise EncodeError('symbolic waker vtable')
@@ -745,12 +745,20 @@ def install_futures(s):
             f = m.prog.traitm.get(('ArcWake', ty, 'wake_by_ref'))
             if f is None: raise EncodeError('no ArcWake impl for ' + ty)
             tmp = m.alloc(th, ('wakearc', ty) + m.cur_site, 'wakearc_' + ty)
-            m.store(Ref.to(tmp), St('Arc', {'p': w.f['data']}), And(g, cg))
+            data = w.f['data']
+            if isinstance(data, Ref) and len(data.tg) > 1:
+                keep = []
+                for x, c, q in data.tg:
+                    inner = m.getpath(c.val, q)
+                    dv = inner.f.get('data') if isinstance(inner, St) else None
+                    if isinstance(dv, St) and dv.ty == ty: keep.append((x, c, q))
+                if keep: data = Ref(keep)
+            m.store(Ref.to(tmp), St('Arc', {'p': data}), And(g, cg))
             alts.append((cg, f, [Ref.to(tmp)], 'wake:' + ty))
         return Dispatch(alts)
     R('Waker::wake_by_ref', wake_by_ref)
     def waker_drop(m, th, a, g):
-        w = m.load(a[0], g)
+        w = m.load_typed(a[0], g, ('Waker',))
         if not isinstance(w, St) or 'data' not in w.f: return UNIT
         tmp = m.alloc(th, ('wdrop',) + m.cur_site, 'wakerdrop')
         m.store(Ref.to(tmp), St('Arc', {'p': w.f['data']}), g)
